@@ -1,58 +1,9 @@
 (* driver/main.ml — line-protocol front end over the extracted model (model.ml).
-   Reads "id cmd args..." lines on stdin, prints "id RESULT" lines on stdout.
-   Bytes are hex strings ("-" = empty); lists of byte strings are comma separated ("." = empty list). *)
-
-let z = Big_int_Z.big_int_of_int
-let zi = Big_int_Z.int_of_big_int
-let zs = Big_int_Z.big_int_of_string
-
-let unhex (s : string) : Big_int_Z.big_int list =
-  if s = "-" then [] else begin
-    let n = String.length s / 2 in
-    let rec go i acc = if i < 0 then acc else
-      go (i - 1) (z (int_of_string ("0x" ^ String.sub s (2 * i) 2)) :: acc) in
-    go (n - 1) []
-  end
-
-let hex (l : Big_int_Z.big_int list) : string =
-  if l = [] then "-" else begin
-    let b = Buffer.create 64 in
-    List.iter (fun x -> Buffer.add_string b (Printf.sprintf "%02x" (zi x))) l;
-    Buffer.contents b
-  end
-
-let unhex_parts (s : string) : Big_int_Z.big_int list list =
-  if s = "." then [] else List.map unhex (String.split_on_char ',' s)
-
-let ints (s : string) : Big_int_Z.big_int list =
-  if s = "." then [] else List.map zs (String.split_on_char ',' s)
-
-let opt_bytes = function Some l -> "OK " ^ hex l | None -> "PANIC"
-
-let outcome_z (o : Big_int_Z.big_int Model.outcome) = match o with
-  | Model.Ok v -> "OK " ^ Big_int_Z.string_of_big_int v
-  | Model.Err c -> "ERR " ^ Big_int_Z.string_of_big_int c
-  | Model.Panic _ -> "PANIC"
-  | Model.Fuel -> "FUEL"
-
-let outcome_bytes (o : Big_int_Z.big_int list Model.outcome) = match o with
-  | Model.Ok v -> "OK " ^ hex v
-  | Model.Err c -> "ERR " ^ Big_int_Z.string_of_big_int c
-  | Model.Panic _ -> "PANIC"
-  | Model.Fuel -> "FUEL"
-
+   Reads "id cmd args..." lines on stdin, prints "id RESULT" lines on stdout. Handlers live in
+   h_<area>.ml files (each: let install register = ...), collected by build.sh. *)
 let handlers : (string, string list -> string) Hashtbl.t = Hashtbl.create 64
 let register name f = Hashtbl.replace handlers name f
-
-let () =
-  register "delta_enc" (function d :: p :: _ -> opt_bytes (Model.delta_write_parts (zs d) (unhex_parts p)) | _ -> "BADARGS");
-  register "delta_dec" (function d :: p :: _ -> opt_bytes (Model.delta_read_parts (zs d) (unhex_parts p)) | _ -> "BADARGS");
-  register "delta_spec" (function d :: p :: _ -> "OK " ^ hex (Model.delta_spec_enc (zs d) [] (unhex p)) | _ -> "BADARGS");
-  register "lzip_dict_enc" (function d :: _ -> outcome_z (Model.lzip_encode_dict_size (zs d)) | _ -> "BADARGS");
-  register "lzip_dict_enc_old" (function d :: _ -> outcome_z (Model.lzip_encode_dict_size_old (zs d)) | _ -> "BADARGS");
-  register "lzip_dict_dec" (function d :: _ -> outcome_z (Model.lzip_decode_dict_size (zs d)) | _ -> "BADARGS");
-  register "lzip_header_dict" (function d :: _ -> outcome_z (Model.lzip_header_dict (zs d)) | _ -> "BADARGS");
-  Handlers.install register
+let () = Handlers_gen.install_all register
 
 let () =
   (try
